@@ -48,6 +48,49 @@ theorem c14_fresh_id (evs : List Ev) (id : Nat) (name : String) (cur ver : Nat)
   · simp only [World.step, World.propose, he] at hok
     cases hok
 
+/-! ### table content by shard id: a new table is empty, tables are isolated
+
+Each table's data lives in a Pebble directory and a Raft shard keyed by the table's id
+(`<name>-<id>` under the state machine directory, shard id = id; storage/table/manager.go startTable,
+fsm.New).  Content is therefore a function of the id, and an id that was never handed out has never
+been written. -/
+
+/-- content of every shard id -/
+abbrev ShardData := Nat → List (List UInt8 × List UInt8)
+
+/-- an operation on the table with shard id `id` -/
+def ShardData.write (d : ShardData) (id : Nat) (f : List (List UInt8 × List UInt8) → List (List UInt8 × List UInt8)) :
+    ShardData := fun i => if i = id then f (d i) else d i
+
+/-- ids never handed out hold nothing -/
+def Untouched (d : ShardData) (issued : List Nat) : Prop := ∀ i, i ∉ issued → d i = []
+
+/-- operations on tables that exist (their ids were handed out) keep never-issued ids empty -/
+theorem c14_untouched_preserved (d : ShardData) (issued : List Nat) (h : Untouched d issued) (id : Nat)
+    (hid : id ∈ issued) (f : List (List UInt8 × List UInt8) → List (List UInt8 × List UInt8)) :
+    Untouched (d.write id f) issued := by
+  intro i hi
+  have : i ≠ id := fun e => hi (e ▸ hid)
+  simp [ShardData.write, this, h i hi]
+
+/-- **a newly created table is empty — also one recreated under a previously used name, also a
+restored one's recovery shard**: the id a creation (or `Restore`, which draws from the same sequence)
+receives is greater than every id handed out before (`c14_fresh_id`), hence was never handed out,
+hence holds nothing; the old incarnation's data sits under the old id -/
+theorem c14_new_table_empty (evs : List Ev) (id : Nat) (name : String) (cur ver : Nat)
+    (hmem : (id, Call.createSetSeq name cur ver) ∈ (System.run {} evs).calls) (newId : Nat)
+    (hok : ((System.run {} evs).w.step (.createSetSeq name cur ver)).2 = .createSetRec name newId)
+    (d : ShardData) (hd : Untouched d (System.run {} evs).w.issued) : d newId = [] := by
+  apply hd
+  intro hin
+  have := c14_fresh_id evs id name cur ver hmem newId hok newId hin
+  omega
+
+/-- **operations on one table never change the content of another** -/
+theorem c14_tables_isolated (d : ShardData) (a b : Nat) (hab : a ≠ b)
+    (f : List (List UInt8 × List UInt8) → List (List UInt8 × List UInt8)) : (d.write a f) b = d b := by
+  simp [ShardData.write, Ne.symm hab]
+
 /-- **creation succeeds only if no table of that name exists** at the moment of its record write:
 on an existing record the write (version 0) is refused as "table exists" and changes nothing — this
 is also what decides races: of several creations of one name, every one whose write comes after
